@@ -7,6 +7,7 @@ import AL.Model.ProjLint
 import AL.Model.ActionDecode
 import AL.Model.ConfigDecode
 import Driver.Util
+import AL.Model.Ignore
 /-
   `parsewf <numbers> <node>`: the document node as an S-expression
       (k,tag,value,q,line,col,(children…))     k ∈ d s m c a   (document sequence mapping sCalar alias)
@@ -471,6 +472,44 @@ def handleConfigMeta : List String → String
         s!"labels={strs c.labels} vars={match c.configVars with | none => "N" | some v => strs v} paths=" ++
           mapS (fun (ps : List String) => strs ps) c.paths
     | _, _, _ => "bad-op"
+  | _ => "bad-op"
+
+end Driver.ParseWfD
+
+namespace Driver.ParseWfD
+open AL.Yaml AL.Ast AL.PW Driver
+
+/-- `ignoretail <cli (hex,…)|E> <bad regexps> <bad globs> <config node|N> <relpath hex> <display path hex>
+<raw ((line,col,msghex),…)|E> <re table ((pathex,msghex),…)|E> <glob table (globhex,…)|E>`:
+the tail of `Linter.check` (AL.Ignore.lintTailOpt) — which of the raw diagnostics of a file are kept, in output order.
+The two tables are the TRUE entries of `regexp.MatchString` (pattern × message) and `doublestar.MatchUnvalidated`
+(glob × path), computed by the harness with the real engines. Answer: `line:col:msghex,…`, `none`, or `config-error`. -/
+def handleIgnoreTail : List String → String
+  | [cli, badre, badglob, node, rel, disp, raw, ret, glt] =>
+    let strs (s : String) : Option (List String) := (readSExp s) >>= listOf >>= fun l => l.mapM SExp.str?
+    let cfg : Option (Option AL.ConfigDecode.Config) :=
+      if node = "N" then some none
+      else match strs badre, strs badglob, (readSExp node) >>= nodeOf with
+        | some br, some bg, some n =>
+          match AL.ConfigDecode.parseConfig (fun r => !br.contains r) (fun g => !bg.contains g) n with
+          | .ok c => some (some c)
+          | .error _ => none
+        | _, _, _ => none
+    let rawL : Option (List AL.Lint.D) := (readSExp raw) >>= listOf >>= fun l => l.mapM fun e =>
+      match e with
+      | .list [.atom li, .atom co, m] =>
+        (SExp.str? m).map fun msg => ({ file := "", line := li.toNat!, col := co.toNat!, msg := msg, kind := "" } : AL.Lint.D)
+      | _ => none
+    let reT : Option (List (String × String)) := (readSExp ret) >>= listOf >>= fun l => l.mapM fun e =>
+      match e with
+      | .list [a, b] => match SExp.str? a, SExp.str? b with | some x, some y => some (x, y) | _, _ => none
+      | _ => none
+    match strs cli, cfg, unhexStr rel, unhexStr disp, rawL, reT, strs glt with
+    | some cli, some cfg, some rel, some disp, some rawL, some reT, some glT =>
+      let out := AL.Ignore.lintTailOpt (fun p m => reT.contains (p, m)) (fun g _ => glT.contains g) cli cfg rel disp rawL
+      if out.isEmpty then "none" else ",".intercalate (out.map fun d => s!"{d.line}:{d.col}:{hexStr d.msg}")
+    | _, none, _, _, _, _, _ => "config-error"
+    | _, _, _, _, _, _, _ => "bad-op"
   | _ => "bad-op"
 
 end Driver.ParseWfD
